@@ -233,6 +233,55 @@ def a64_fpleaf_func(name, rng):
     b.append(Boundary(16, 0, row0, kind="epilogue"))
     return Func(name, "fpleaf", b, 20)
 
+def a64_gpfp_func(name, rng, noreturn=False):
+    """code built without frame records (-fomit-frame-pointer; AAPCS64 lets a platform use x29 as a general-purpose
+    callee-saved register): sub sp; stp x29,x30,[sp,#k]; mov x29,#junk; ... calls ...; ldp x29,x30,[sp,#k]; add sp; ret.
+    The CFA stays sp-based; x29 and x30 are restored from their slots, and what the caller had in x29 is just a value"""
+    r = R("a64")
+    frame = 16 * rng.range(2, 6)
+    slot = 16 * rng.range(0, frame // 16 - 1)
+    b = []
+    off = 0
+    entry_row = dict(cfa=("r", r["sp"], 0), fp=("s",), ra=("s",))
+    b.append(Boundary(off, 0, entry_row, kind="entry")); off += 4             # sub sp, sp, #frame
+    b.append(Boundary(off, frame, dict(cfa=("r", r["sp"], frame), fp=("s",), ra=("s",)), kind="prologue")); off += 4   # stp x29, x30
+    body_row = dict(cfa=("r", r["sp"], frame), fp=("o", slot - frame), ra=("o", slot + 8 - frame))
+    sv = {"fp": slot - frame, "ra": slot + 8 - frame}
+    b.append(Boundary(off, frame, body_row, saved=sv, kind="body")); off += 4          # mov x29, #junk
+    for i in range(rng.range(1, 3)):
+        bd = Boundary(off, frame, body_row, saved=sv, call=off + 4, kind="body"); bd.fp_scratch = True; b.append(bd); off += 4
+        bd = Boundary(off, frame, body_row, saved=sv, kind="body"); bd.fp_scratch = True; b.append(bd); off += 4
+    if noreturn:
+        bd = Boundary(off, frame, body_row, saved=sv, call=off + 4, kind="tailcall"); bd.fp_scratch = True; b.append(bd); off += 4
+    else:
+        bd = Boundary(off, frame, body_row, saved=sv, kind="epilogue"); bd.fp_scratch = True; b.append(bd); off += 4     # ldp x29, x30
+        b.append(Boundary(off, frame, dict(cfa=("r", r["sp"], frame), fp=("s",), ra=("s",)), kind="epilogue")); off += 4  # add sp
+        b.append(Boundary(off, 0, entry_row, kind="epilogue")); off += 4
+    return Func(name, "gpfp", b, off)
+
+def make_program_gpfp(rng, nfuncs=6):
+    """an aarch64 program without a single frame record: every function is sp-based (see a64_gpfp_func); no row refers
+    to x29 as a base, so whatever its callers keep in x29 is restored like any other callee-saved register"""
+    funcs = [root_func("root", "a64", rng)]
+    for i in range(nfuncs):
+        c = rng.below(6)
+        if c < 3:
+            f = a64_gpfp_func("g%d" % i, rng, noreturn=rng.chance(1, 6))
+        elif c < 5:
+            f = a64_frameless_func("f%d" % i, rng, noreturn=rng.chance(1, 6))
+        else:
+            f = a64_leaf_func("l%d" % i, rng)
+        funcs.append(f)
+    funcs.append(a64_gpfp_func("g%d" % nfuncs, rng))
+    funcs.append(a64_fpleaf_func("l%d" % nfuncs, rng))
+    for f in funcs:
+        f.arch = "a64"
+    pos = 0x1000
+    for f in funcs:
+        f.start = pos
+        pos += f.length + (0 if f.bounds[-1].kind == "tailcall" else rng.choice([0, 0, 4, 16]))
+    return funcs
+
 def valfp_func(name, rng, arch):
     """a function entered only from callers whose frame pointer equals their stack pointer at the call (aarch64: every
     frame-record function after `mov x29, sp`; x86_64: `push rbp; mov rbp, rsp` without further pushes): its CFI states
